@@ -190,6 +190,8 @@ def run(ctx):
                 ctx.violate("no-status", dict(rp, observed="the connection is gone but no exit status was set (exit_status=%r)" % st))
             if fault in ("auth-failed", "server-refuses") and (st in (None, 1) or "close" not in tl):
                 ctx.violate("no-status", dict(rp, observed="the server refused / failed the authentication but vncdo did not close the connection and set a status (exit_status=%r, trace %r)" % (st, tl[-4:])))
+            if res.get("aborted_on_unknown_encoding") is False and "close" not in tl:
+                ctx.violate("no-abort-on-protocol-error", dict(rp, observed="a rectangle in an encoding the client does not implement did not make it abort: it went on as if the update were understood"))
             if fault in ("silent-in-handshake",) and st == 0:
                 ctx.violate("status-zero-lie", dict(rp, observed="fault %s ended with exit status 0" % fault))
             if fault in ("refused", "auth-failed", "server-refuses") and st == 0:
